@@ -146,7 +146,7 @@ SOURCE_TIE = {
     "C16": ("C16_source", "Subject.IsContainedIn / HasWildCards and Exports.HasExportContainingSubject (v2 and v1compat; the query is true exactly when some non-nil entry's subject contains the one asked for); RenamingSubject.ToSubject (a token reads as * exactly when it is a dollar sign followed by an integer)"),
     "C18": ("C18_source", "ActivationClaims.HashID itself and cleanSubject (v2 and v1compat; the hash object an opaque value - sha256.New, Write and Sum unknown functions - so HashID is the model's hash_id for every hash function: refused when a part is missing, else base32 of the digest of exactly issuer.subject.cleaned)"),
     "C19": ("C19_source", "the v1compat Decode(token, target) with parseHeaders and parseClaims (accepts exactly what the model's v1_decode accepts, for every target kind) and the v1compat DecodeGeneric (that Decode into generic claims of its own and nothing before or after it)"),
-    "C20": ("C20_source", "TagList / StringList Contains, Add, Remove; CIDRList Contains, Add, Remove (the tag list's, through a pointer conversion) and Set (the model's cidr_set: the list emptied, the lower-cased text split on commas added)"),
+    "C20": ("C20_source", "TagList / StringList Contains, Add, Remove; CIDRList Contains, Add, Remove (the tag list's, through a pointer conversion) and Set (the model's cidr_set: the list emptied, the lower-cased text split on commas added); CIDRList.UnmarshalJSON (array taken as it is, text through Set, anything else an error: the model's cidr_unmarshal)"),
 }
 for _pid, (_pf, _fns) in SOURCE_TIE.items():
     _pfl = _pf if isinstance(_pf, list) else [_pf]
